@@ -17,7 +17,8 @@ Exact-arithmetic harnesses (engine E1, symbolic ints/reals, path forking):
   H2/Tempo.compute, H2/MeanFieldTempo.compute, H2/PtTebd.compute   loop + label bookkeeping with
                      a counting back-end stub
   H3/Dynamics.add, H3/MeanFieldDynamics.add   <= 4 insertions at symbolic times stay sorted and aligned; .../rejected_add:
-                     adds that raise (wrong state shape, caught by the caller) in between leave the object unchanged
+                     adds that raise (wrong state shape, caught by the caller) in between leave the object unchanged;
+                     all read through the PUBLIC .times/.states/.fields/.expectations(), read after every add
 """
 import math
 import multiprocessing as mp
@@ -498,7 +499,7 @@ class LabelsComputeDynamics(_ApiLabels):
         pts, ns_arg = self._pts(inp, ns)
         dyn = sd.compute_dynamics(lib.FakeSystem(2, P1, P2), initial_state=rho0, dt=dt, num_steps=ns_arg, start_time=start,
                                   process_tensor=pts, record_all=self.record_all, progress_type="silent")
-        times, states = list(dyn._times), list(dyn._states)
+        times, states = list(dyn.times), list(dyn.states)
         obs = _times_obs(times, start, dt, ns, self.record_all)
         obs.append(Ob.holds("len(times) == len(states)", len(times) == len(states), key="len"))
         acc = inp.one()
@@ -545,7 +546,7 @@ class LabelsGradient(_ApiLabels):
             lib.FakeParamSystem(2, P1, P2), initial_state=rho0, target_derivative=target, process_tensors=pts,
             parameters=[(0.0,)] * (2 * self.NMAX), start_time=start, dt=dt, num_steps=ns_arg, record_all=self.record_all,
             progress_type="silent")
-        times, states = list(dyn._times), list(dyn._states)
+        times, states = list(dyn.times), list(dyn.states)
         obs = _times_obs(times, start, dt, ns, self.record_all)
         obs.append(Ob.holds("len(times) == len(states)", len(times) == len(states), key="len"))
         acc = inp.one()
@@ -597,7 +598,7 @@ class LabelsStateGradient(_ApiLabels):
         res = gradient_mod.state_gradient(_GradSystem(inp, 2, P1, P2), rho0, target, [pt], np.zeros((2 * ns, 1)),
                                           start_time=start, progress_type="silent")
         dyn = res["dynamics"]
-        times, states = list(dyn._times), list(dyn._states)
+        times, states = list(dyn.times), list(dyn.states)
         obs = _times_obs(times, start, dt, ns, True)
         obs.append(Ob.holds("len(times) == len(states)", len(times) == len(states), key="len"))
         acc = inp.one()
@@ -731,13 +732,15 @@ class ComputeLoop(Case):
         end1 = start + (m1 + th1) * dt
         end2 = start + (m2 + th2) * dt
         with exact_floats():
-            o.compute(end1, progress_type="silent")
+            d1 = o.compute(end1, progress_type="silent")
+            first_read = (len(d1.times), len(d1.states if cls is Tempo else d1.system_dynamics[0].states))
             dyn = o.compute(end2, progress_type="silent")
         m1c, m2c = int(m1), int(m2)
         top = max(m1c, m2c)
-        times = list(dyn._times)
-        states = list(dyn._states) if cls is Tempo else list(dyn._system_dynamics[0]._states)
-        obs = [Ob.holds("len(times) == max(m1,m2)+1", len(times) == top + 1, key="len"),
+        times = list(dyn.times)          # public read-outs (a first read happened between the two compute calls)
+        states = list(dyn.states) if cls is Tempo else list(dyn.system_dynamics[0].states)
+        obs = [Ob.holds("read-out after the first compute: len(times) == len(states) == m1+1", first_read == (m1c + 1, m1c + 1), key="len"),
+               Ob.holds("len(times) == max(m1,m2)+1", len(times) == top + 1, key="len"),
                Ob.holds("len(states) == len(times)", len(states) == len(times), key="len")]
         acc = inp.one()
         for k in range(min(len(times), top + 1)):
@@ -864,27 +867,39 @@ class DynamicsAdd(Case):
         n = self.n
         ts = [inp.real("t%d" % i) for i in range(n)]
         tags = [inp.real("s%d" % i) for i in range(n)]
+        reads = []          # public read-outs after every accepted add: (len(times), len(states), len(expectations) [, len(fields)])
         if self.kind == "Dynamics":
             dyn = dynamics_mod.Dynamics()
             for k, (t, g) in enumerate(zip(ts, tags)):
                 dyn.add(t, _scale(inp.const(np.identity(2)), g))
                 self._bad_add(inp, dyn, k)
-            times, states = list(dyn._times), [s[0, 0] for s in dyn._states]
+                reads.append((k + 1, len(dyn.times), len(dyn.states), len(dyn.expectations()[1])))
+            times, states = list(dyn.times), [s_[0, 0] for s_ in dyn.states]
+            expect = list(dyn.expectations()[1])
             fields = None
         else:
             dyn = dynamics_mod.MeanFieldDynamics()
             for k, (t, g) in enumerate(zip(ts, tags)):
                 dyn.add(t, [_scale(inp.const(np.identity(2)), g)], g * 2)
                 self._bad_add(inp, dyn, k)
-            times = list(dyn._times)
-            states = [s[0, 0] for s in dyn._system_dynamics[0]._states]
-            fields = list(dyn._fields)
-            sub_times = list(dyn._system_dynamics[0]._times)
+                sub = dyn.system_dynamics[0]
+                reads.append((k + 1, len(dyn.times), len(sub.states), len(sub.expectations()[1]), len(dyn.fields), len(sub.times)))
+            times = list(dyn.times)
+            sub = dyn.system_dynamics[0]
+            states = [s_[0, 0] for s_ in sub.states]
+            expect = list(sub.expectations()[1])
+            fields = list(dyn.fields)
+            sub_times = list(sub.times)
+        obs_reads = [Ob.holds("public read-out after accepted add %d: times, states, expectations%s all have %d entries" % (
+            r[0], "" if fields is None else ", fields", r[0]), all(x == r[0] for x in r[1:]), key="readout", info=str(r)) for r in reads]
         aligned = len(times) == n and len(states) == n and (fields is None or (len(fields) == n and len(sub_times) == n))
         obs = [Ob.holds("exactly the accepted insertions are recorded (times, states%s)" % ("" if fields is None else ", fields"), aligned,
                         key="len", info="len(times)=%d len(states)=%d accepted adds=%d" % (len(times), len(states), n))]
-        if not aligned:
-            return obs
+        obs = obs_reads + obs
+        if not aligned or len(expect) != n:
+            return obs + [Ob.holds("expectations() has one entry per time", len(expect) == len(times), key="readout")]
+        for p in range(n):
+            obs.append(Ob.eq("expectations()[%d] is the trace of states[%d]" % (p, p), expect[p], states[p] * 2, key="readout"))
         for i in range(len(times) - 1):
             obs.append(Ob.holds("times sorted at %d" % i, times[i] <= times[i + 1], key="sorted"))
         # every (time, state) pair is one of the inserted pairs and each inserted pair occurs once:
